@@ -484,19 +484,25 @@ fn add_ttl(now: (u64, u32), t: (u64, u32)) -> (u64, u32) {
 /// expiry index follows the new expiry; an explicit weight is queued as UpdateWeight and, once the worker has
 /// applied it, is the key's charged weight (total adjusted by the difference).  Absent key: exactly the
 /// command the corresponding put would queue.  Other keys are never touched.
-#[kani::proof] #[kani::unwind(6)] fn c08_put_or_update_step_q0() { c08_put_or_update_step_for(0); }
-#[kani::proof] #[kani::unwind(6)] fn c08_put_or_update_step_q1() { c08_put_or_update_step_for(1); }
-#[kani::proof] #[kani::unwind(6)] fn c08_put_or_update_step_q2() { c08_put_or_update_step_for(2); }
-#[kani::proof] #[kani::unwind(6)] fn c08_put_or_update_step_q3() { c08_put_or_update_step_for(3); }
-fn c08_put_or_update_step_for(q: usize) {
+#[kani::proof] #[kani::unwind(6)] fn c08_put_or_update_step_q0_k0() { c08_put_or_update_step_for(0, Some(0)); }
+#[kani::proof] #[kani::unwind(6)] fn c08_put_or_update_step_q0_k1() { c08_put_or_update_step_for(0, Some(1)); }
+#[kani::proof] #[kani::unwind(6)] fn c08_put_or_update_step_q0_k2() { c08_put_or_update_step_for(0, Some(2)); }
+#[kani::proof] #[kani::unwind(6)] fn c08_put_or_update_step_q1_k0() { c08_put_or_update_step_for(1, Some(0)); }
+#[kani::proof] #[kani::unwind(6)] fn c08_put_or_update_step_q1_k1() { c08_put_or_update_step_for(1, Some(1)); }
+#[kani::proof] #[kani::unwind(6)] fn c08_put_or_update_step_q1_k2() { c08_put_or_update_step_for(1, Some(2)); }
+#[kani::proof] #[kani::unwind(6)] fn c08_put_or_update_step_q2() { c08_put_or_update_step_for(2, None); }
+#[kani::proof] #[kani::unwind(6)] fn c08_put_or_update_step_q3() { c08_put_or_update_step_for(3, None); }
+/// `kind`: for held keys the TTL part of the request is concrete per harness (0: TTL untouched, 1: new TTL, 2: remove
+/// TTL) - with all four request fields symbolic at once the harness did not finish in 15 min; value and weight stay symbolic
+fn c08_put_or_update_step_for(q: usize, kind: Option<u8>) {
     mk_world!(w, keys, max, 2, SHAPE_A);
     let now = any_now();
     let key = sk::key_of(q);
     let value: Option<u64> = if kani::any() { Some(kani::any()) } else { None };
     let weight: Option<Weight> = if kani::any() { let x: Weight = kani::any(); kani::assume(x >= 1 && x <= (1i64 << 40)); Some(x) } else { None };
     let (t, ttl_d) = ttl_any();
-    let ttl: Option<Duration> = if kani::any() { Some(ttl_d) } else { None };
-    let remove: bool = kani::any();
+    let ttl: Option<Duration> = match kind { Some(1) => Some(ttl_d), Some(_) => None, None => if kani::any() { Some(ttl_d) } else { None } };
+    let remove: bool = match kind { Some(2) => true, Some(_) => false, None => kani::any() };
     kani::assume((value.is_some() || weight.is_some() || ttl.is_some() || remove) && !(ttl.is_some() && remove));
     let present = q < POOL && keys[q].e.present;
     let readable = q < POOL && sk::readable(&keys[q].e, now);
@@ -508,11 +514,13 @@ fn c08_put_or_update_step_for(q: usize) {
     let f6_region = present && remove && keys[q].e.expiry.is_some() && weight.is_none() && value.is_none() && keys[q].weight <= 24;
     if sup::cfg::KF_F6 && f6_region {
         kani::cover!(true, "KF F6: remove_time_to_live on a key of weight <= 24 (e.g. put_with_weight_and_ttl(k,v,10,ttl)): weight - 24 <= 0 trips assert!(weight > 0) after store and index were already changed");
-        kani::assume(false);
+        core::mem::forget(w);
+        return;
     }
     let r = c.put_or_update(pouk::vk_request(key, value, weight, ttl, remove));
     assert!(r.is_ok(), "C13: a running cache accepts the call");
     let ack = hold(r);
+    let mut cv: Option<(bool, bool, bool, Weight, Option<u64>)> = None;   // facts about the in-place update, for the covers below
     let qlen = cek::vk_queue_len(&c.command_executor);
     if !present {
         // acts as the corresponding put
@@ -555,12 +563,17 @@ fn c08_put_or_update_step_for(q: usize) {
                 }
             }
         }
-        kani::cover!(old.e.expiry.is_some() || (ttl_added && weight.is_none() && value.is_none()), "TTL added: weight grows by the expiry-entry size");
-        kani::cover!(old.e.expiry.is_none() || (ttl_removed && weight.is_none() && value.is_none() && old.weight > 24), "TTL removed: weight shrinks by the expiry-entry size");
-        kani::cover!(value.is_some() && ttl.is_some(), "value and TTL changed together");
-        kani::cover!(weight.is_some() && value.is_none() && ttl.is_none() && !remove, "weight only");
-        kani::cover!(old.e.expiry.is_none() || (ttl.is_some() && (add_ttl(now, t).0 % 2) != (old.e.expiry.unwrap().0 % 2)), "TTL change moves the entry to the other index shard");
+        cv = Some((ttl_added, ttl_removed, old.e.expiry.is_some(), old.weight, old.e.expiry.map(|d| d.0 % 2)));
     }
+    // covers of the in-place update path, placed where every family member executes them and guarded by the member's
+    // concrete target shape (a cover inside a branch that is dead for a member could not be told from a vacuous one)
+    let upd = present && readable;
+    let (c_added, c_removed, c_had, c_w, c_par) = cv.unwrap_or((false, false, false, 0, None));
+    kani::cover!(!present || (upd && (c_had || kind != Some(1) || (c_added && weight.is_none() && value.is_none()))), "TTL added: weight grows by the expiry-entry size");
+    kani::cover!(!present || (upd && (!c_had || kind != Some(2) || (c_removed && weight.is_none() && value.is_none() && c_w > 24))), "TTL removed: weight shrinks by the expiry-entry size");
+    kani::cover!(!present || (upd && (kind != Some(1) || (value.is_some() && ttl.is_some()))), "value and TTL changed together");
+    kani::cover!(!present || (upd && (kind != Some(0) || (weight.is_some() && value.is_none() && ttl.is_none() && !remove))), "weight only");
+    kani::cover!(!present || (upd && (!c_had || kind != Some(1) || (ttl.is_some() && Some(add_ttl(now, t).0 % 2) != c_par))), "TTL change moves the entry to the other index shard");
     kani::cover!(present || (ttl.is_some() && weight.is_none()), "absent key, TTL put with computed weight");
     kani::cover!(!present || (!readable && keys[q].e.soft_deleted), "upsert of a soft-deleted key");
     vs::edge_covers();
@@ -595,7 +608,8 @@ fn c05_worker_put_step_for(q: usize) {
     // F3: the key is already physically held when the queued put is applied (two puts of one key issued before the first was applied)
     if sup::cfg::KF_F3 && present {
         kani::cover!(true, "KF F3: a Put applied while the key is already held (double put before the first is applied): both ids are charged, the store keeps one entry: weight leaked, and evicting the orphan id later removes the live entry");
-        kani::assume(false);
+        core::mem::forget(w);
+        return;
     }
     let d = crate::cache::key_description::KeyDescription::new(key, FIRST_FRESH_ID, cfk::vk_hash(&key), wv);
     let ack = hold(if with_ttl { c.command_executor.send(crate::cache::command::CommandType::PutWithTTL(d, v, ttl)) } else { c.command_executor.send(crate::cache::command::CommandType::Put(d, v)) });
@@ -664,6 +678,28 @@ fn run_worker_hook(_class: u8) { unsafe { resume_worker(&*W_PTR); } }
 /// once in FIFO order; acknowledgements resolve to the outcome of the in-order execution (Accepted, Accepted,
 /// Accepted); k is absent (a put followed by a delete always leaves the key absent), k2 present; weight and
 /// statistics equal those of the in-order reference run.
+/// C11 / P3: put(k) then delete(k) issued back to back WITHOUT awaiting (queue large enough, worker idle until both are
+/// queued): both commands are queued, executed once each in submission order, and k is absent afterwards.
+#[kani::proof]
+#[kani::unwind(6)]
+fn c11_put_then_delete_unawaited() {
+    mk_empty_world!(w, 4, 1000);
+    any_now();
+    let c = &w.cache;
+    let v: u64 = kani::any();
+    let a1 = hold(c.put_with_weight(101, v, 10));
+    let a2 = hold(c.delete(101));
+    assert!(cek::vk_queue_len(&c.command_executor) == 2, "C11: every write that reaches the queue is queued exactly once (a delete issued right after an unawaited put included)");
+    cek::vk_run_worker(w.worker);
+    let (sent, received, fifo_ok) = cek::vk_chan_stats(&c.command_executor);
+    assert!(sent == 2 && received == 2 && fifo_ok, "C11: each queued write is dequeued exactly once, in submission order");
+    assert!(status_of(&a1) == Poll::Ready(CommandStatus::Accepted) && status_of(&a2) == Poll::Ready(CommandStatus::Accepted), "C11/C12: acknowledgements resolve to the outcome of the in-order execution");
+    assert!(c.get(&101).is_none() && sk::vk_peek(&c.store, &101).is_none() && c.total_weight_used() == 0, "C11: a put followed without awaiting by a delete of the same key leaves the key absent and its weight released");
+    assert!(w.stats.keys_added() == 1 && w.stats.keys_deleted() == 1, "C16: statistics of the in-order run");
+    kani::cover!(true, "end reached");
+    vs::edge_covers();
+    core::mem::forget(w);
+}
 #[kani::proof] #[kani::unwind(6)] fn c11_unawaited_burst_queue_of_1() { unawaited_burst_in_order(1); }
 #[kani::proof] #[kani::unwind(6)] fn c11_unawaited_burst_queue_of_2() { unawaited_burst_in_order(2); }
 fn unawaited_burst_in_order(qcap: usize) {
@@ -791,6 +827,9 @@ fn c13_late_send_races_drain() {
     let sd = hold(c.command_executor.shutdown());
     let behind = hold(c.command_executor.send(crate::cache::command::CommandType::Delete(101)));
     vs::set_hook(interfering_send, 1);
+    // candidate points: every dequeue operation of the worker (recv / try_recv) - the window in which a late command can
+    // arrive between two dequeues; placing it at every lock operation as well did not finish within 15 min
+    vs::set_hook_sites(1 << vs::S_Q_RECV);
     cek::vk_run_worker(w.worker);
     vs::clear_hook();
     assert!(status_of(&sd) == Poll::Ready(CommandStatus::Accepted) && status_of(&behind) == Poll::Ready(CommandStatus::ShuttingDown), "C13: Shutdown acknowledged, the command behind it answered ShuttingDown");
